@@ -322,6 +322,11 @@ pub fn worker(ctx: &mut Ctx) {
                 };
                 let mut wl = harper_wasm::Linter::new(wd);
                 let js = u.to_json(&keys, ci % 12 == 0);
+                // two times out of three the linter has been used (and its configuration read) before it is configured
+                if (ci / 6) % 3 != 0 {
+                    let _ = guarded(|| wl.lint(wit_text.clone(), harper_wasm::Language::Plain));
+                    let _ = wl.get_lint_config_as_json();
+                }
                 if wl.set_lint_config_from_json(js.clone()).is_ok() {
                     let got_w = wl.lint(wit_text.clone(), harper_wasm::Language::Plain);
                     let mut exp_w: Vec<Lint> = Vec::new();
